@@ -550,7 +550,7 @@ Definition SV : ast := AST false true true.
 Lemma astep_val s s1 : astep s KVal = Some s1 -> s1 = SV.
 Proof. cbn [astep]. destruct (s_lf s || s_pv s); [discriminate|]. now intros [= <-]. Qed.
 
-(** a value item in the middle: the state before it admits a value, the state after it is SV *)
+(** a value item in the middle: the state before it allows a value, the state after it is SV *)
 Lemma value_item_run it rest s s' :
   item_sp it = true -> is_value it = true -> arun s (flat (it :: rest)) = Some s' ->
   astep s KVal = Some SV /\ arun SV (flat rest) = Some s'
@@ -579,39 +579,902 @@ Qed.
 Lemma set_at_app {A} (pre : list A) a post f : set_at (length pre) f (pre ++ a :: post) = pre ++ f a :: post.
 Proof. induction pre as [|p pre IH]; simpl; [reflexivity|]. now rewrite IH. Qed.
 
+(** node.value = vt for a value node at position [length pre] *)
+Lemma set_value_at_inv y vw pre it post : inv vw -> word y = true ->
+  v_items vw = pre ++ it :: post -> is_value it = true ->
+  let vw' := set_value_at (length pre) (IV [Tok KVal y] true) vw in
+  inv vw' /\ v_items vw' = pre ++ IV [Tok KVal y] true :: post
+  /\ view_values vw' = values_of pre ++ y :: values_of post /\ v_changed vw' = true.
+Proof.
+  intros Hinv Hg Eits Hv vw'. apply inv_P in Hinv. destruct Hinv as [[s' [HP Hfin]] Hc].
+  assert (Hitems : v_items vw' = pre ++ IV [Tok KVal y] true :: post).
+  { subst vw'. unfold set_value_at, v_items. cbn [set_changed set_nodes v_nodes].
+    rewrite map_snd_set_at. fold (v_items vw). rewrite Eits. now rewrite set_at_app. }
+  splits.
+  - apply inv_P. split.
+    + exists s'. split; [|exact Hfin]. rewrite Hitems. rewrite Eits in HP.
+      destruct (P_app_inv _ _ _ HP) as [s1 [HPa [Hrun [B1 [B2 B3]]]]].
+      cbn [forallb] in B1. apply andb_true_iff in B1. destruct B1 as [Bi B1].
+      destruct (value_item_run _ _ _ _ Bi Hv Hrun) as [Hs [Hrest [t [f [-> Ht]]]]].
+      rewrite flat_cons in B2, B3. cbn [item_toks app] in B2, B3.
+      inversion B2 as [|? ? _ B2']; subst. cbn [forallb] in B3. apply andb_true_iff in B3. destruct B3 as [_ B3'].
+      apply (P_app _ _ s1 s' HPa).
+      * rewrite flat_cons. cbn [item_toks app arun tk]. now rewrite Hs.
+      * cbn [forallb item_sp is_val tk kind_eqb andb]. exact B1.
+      * rewrite flat_cons. cbn [item_toks app]. constructor; [exact Hg|assumption].
+      * rewrite flat_cons. cbn [item_toks app forallb]. now rewrite B3'.
+    + exact Hc.
+  - exact Hitems.
+  - unfold view_values. rewrite Hitems, values_of_app, values_of_cons. cbn [is_value app]. now rewrite render_sp_item.
+  - reflexivity.
+Qed.
+
 Lemma replace_inv x y vw : inv vw -> good_value false y = true ->
   match list_replace x y (view_values vw) with
   | Some l' => exists vw', replace Space x y vw = Ok vw' /\ inv vw' /\ view_values vw' = l' /\ v_changed vw' = true
   | None => exists e, replace Space x y vw = Err e
   end.
 Proof.
-  intros Hinv Hg. apply good_value_word in Hg. apply inv_P in Hinv. destruct Hinv as [[s' [HP Hfin]] Hc].
+  intros Hinv Hg. apply good_value_word in Hg.
   unfold replace, view_values. destruct (find_value x (v_items vw) 0) as [i|] eqn:Ef.
   - destruct (find_value_some _ _ _ _ Ef) as [pre [it [post [Eits [-> [Hm Hpre]]]]]].
     destruct (matches_inv _ _ Hm) as [Hv Hr].
     rewrite Eits, values_of_app, values_of_cons, Hv, Hr. cbn [app].
     rewrite list_replace_first by now apply nomatch_values.
-    rewrite value_factory_word by assumption. cbn [bind]. eexists. split; [reflexivity|].
-    assert (Hitems : v_items (set_value_at (0 + length pre) (IV [Tok KVal y] true) vw)
-                     = pre ++ IV [Tok KVal y] true :: post).
-    { unfold set_value_at, v_items. cbn [set_changed set_nodes v_nodes].
-      rewrite map_snd_set_at. fold (v_items vw). rewrite Eits. cbn [plus]. apply set_at_app. }
-    splits.
-    + apply inv_P. split.
-      * exists s'. split; [|exact Hfin]. rewrite Hitems. rewrite Eits in HP.
-        destruct (P_app_inv _ _ _ HP) as [s1 [HPa [Hrun [B1 [B2 B3]]]]].
-        cbn [forallb] in B1. apply andb_true_iff in B1. destruct B1 as [Bi B1].
-        destruct (value_item_run _ _ _ _ Bi Hv Hrun) as [Hs [Hrest [t [f [-> Ht]]]]].
-        rewrite flat_cons in B2, B3. cbn [item_toks app] in B2, B3.
-        inversion B2 as [|? ? _ B2']; subst. cbn [forallb] in B3. apply andb_true_iff in B3. destruct B3 as [_ B3'].
-        apply P_app with s1; try assumption.
-        -- rewrite flat_cons. cbn [item_toks app arun tk]. now rewrite Hs.
-        -- cbn [forallb item_sp is_val tk kind_eqb]. exact B1.
-        -- rewrite flat_cons. cbn [item_toks app]. constructor; [exact Hg|assumption].
-        -- rewrite flat_cons. cbn [item_toks app forallb]. now rewrite B3'.
-      * exact Hc.
-    + rewrite Hitems, values_of_app, values_of_cons. cbn [is_value app]. now rewrite render_sp_item.
-    + reflexivity.
+    rewrite value_factory_word by assumption. cbn [bind plus]. eexists. split; [reflexivity|].
+    destruct (set_value_at_inv y vw pre it post Hinv Hg Eits Hv) as [H1 [_ [H3 H4]]]. splits; assumption.
   - apply find_value_none in Ef. rewrite list_replace_absent by now apply nomatch_values.
     now eexists.
+Qed.
+
+(** * remove *)
+
+Definition nonvalue (it : item) : bool := negb (is_value it).
+
+Lemma values_of_nonvalues m : forallb nonvalue m = true -> values_of m = [].
+Proof.
+  induction m as [|it m IH]; [reflexivity|]. cbn [forallb]. intros H.
+  apply andb_true_iff in H. destruct H as [Hi H]. rewrite values_of_cons, IH by assumption.
+  unfold nonvalue in Hi. apply negb_true_iff in Hi. now rewrite Hi.
+Qed.
+
+Lemma comment_item_nonvalue it : is_comment_item it = true -> is_value it = false.
+Proof. destruct it; [reflexivity|discriminate]. Qed.
+
+(** the scans of _remove_node: distance to the nearest value *)
+Lemma scan_side_spec : forall l sc d,
+  match snd (scan_side l sc d) with
+  | None => forallb nonvalue l = true
+  | Some n => exists m v rest, l = m ++ v :: rest /\ forallb nonvalue m = true
+                               /\ is_value v = true /\ n = d + length m
+  end.
+Proof.
+  induction l as [|it l IH]; intros sc d; [reflexivity|].
+  cbn [scan_side]. destruct (is_comment_item it) eqn:Ec.
+  - specialize (IH true (S d)). destruct (snd (scan_side l true (S d))) as [n|].
+    + destruct IH as [m [v [rest [-> [Hm [Hv ->]]]]]]. exists (it :: m), v, rest. splits; auto; try (simpl; lia).
+      cbn [forallb]. unfold nonvalue at 1. now rewrite comment_item_nonvalue, Hm.
+    + cbn [forallb]. unfold nonvalue at 1. now rewrite comment_item_nonvalue, IH.
+  - destruct (is_value it) eqn:Ev.
+    + cbn [snd]. exists [], it, l. splits; auto; simpl; lia.
+    + specialize (IH sc (S d)). destruct (snd (scan_side l sc (S d))) as [n|].
+      * destruct IH as [m [v [rest [-> [Hm [Hv ->]]]]]]. exists (it :: m), v, rest. splits; auto; try (simpl; lia).
+        cbn [forallb]. unfold nonvalue at 1. now rewrite Ev, Hm.
+      * cbn [forallb]. unfold nonvalue at 1. now rewrite Ev, IH.
+Qed.
+
+Lemma firstn_pre {A} (pre : list A) rest : firstn (length pre) (pre ++ rest) = pre.
+Proof. apply firstn_length_app. Qed.
+
+Lemma skipn_S_pre {A} (pre : list A) a rest : skipn (S (length pre)) (pre ++ a :: rest) = rest.
+Proof. induction pre as [|p pre IH]; simpl; [reflexivity|exact IH]. Qed.
+
+(** what _remove_node unlinks: everything (no other value), or the node with the
+    non-values up to the previous value, or the node with the non-values up to the next value *)
+Lemma remove_range_spec pre it post :
+  match remove_range (pre ++ it :: post) (length pre) with
+  | None => forallb nonvalue pre = true /\ forallb nonvalue post = true
+  | Some (a, b) =>
+      (exists pre' pv mid, pre = pre' ++ pv :: mid /\ is_value pv = true /\ forallb nonvalue mid = true
+          /\ delete_range a b (pre ++ it :: post) = pre' ++ pv :: post
+          /\ a = length pre' + 1 /\ b = S (length pre))
+      \/ (exists mid nv post', post = mid ++ nv :: post' /\ is_value nv = true /\ forallb nonvalue mid = true
+          /\ delete_range a b (pre ++ it :: post) = pre ++ nv :: post'
+          /\ a = length pre /\ b = S (length pre) + length mid)
+  end.
+Proof.
+  unfold remove_range. rewrite firstn_pre, skipn_S_pre.
+  pose proof (scan_side_spec (rev pre) false 0) as HL.
+  pose proof (scan_side_spec post false 0) as HR.
+  destruct (scan_side (rev pre) false 0) as [com_l lhs].
+  destruct (scan_side post false 0) as [com_r rhs]. cbn [snd] in HL, HR.
+  assert (Left : forall dl, lhs = Some dl ->
+            exists pre' pv mid, pre = pre' ++ pv :: mid /\ is_value pv = true /\ forallb nonvalue mid = true
+              /\ delete_range (length pre - dl) (S (length pre)) (pre ++ it :: post) = pre' ++ pv :: post
+              /\ length pre - dl = length pre' + 1).
+  { intros dl ->. destruct HL as [m [v [rest [Er [Hm [Hv ->]]]]]].
+    apply (f_equal (@rev item)) in Er. rewrite rev_involutive, rev_app_distr in Er. cbn [rev] in Er.
+    rewrite <- app_assoc in Er. cbn [app] in Er.
+    exists (rev rest), v, (rev m). splits; auto.
+    - rewrite forallb_forall in *. intros z Hz. apply Hm. now apply in_rev.
+    - unfold delete_range. rewrite skipn_S_pre.
+      assert (Hf : firstn (length pre - (0 + length m)) (pre ++ it :: post) = rev rest ++ [v]).
+      { assert (Hl : length pre - (0 + length m) = length (rev rest ++ [v])).
+        { rewrite Er. rewrite !app_length. cbn [length]. rewrite !rev_length. lia. }
+        rewrite Hl, Er.
+        replace ((rev rest ++ v :: rev m) ++ it :: post) with ((rev rest ++ [v]) ++ (rev m ++ it :: post))
+          by (rewrite <- !app_assoc; reflexivity).
+        apply firstn_length_app. }
+      rewrite Hf. now rewrite <- app_assoc.
+    - rewrite Er. rewrite !app_length. cbn [length]. rewrite !rev_length. lia. }
+  assert (Right : forall dr, rhs = Some dr ->
+            exists mid nv post', post = mid ++ nv :: post' /\ is_value nv = true /\ forallb nonvalue mid = true
+              /\ delete_range (length pre) (S (length pre) + dr) (pre ++ it :: post) = pre ++ nv :: post'
+              /\ dr = length mid).
+  { intros dr ->. destruct HR as [m [v [rest [-> [Hm [Hv ->]]]]]].
+    exists m, v, rest. splits; auto.
+    unfold delete_range. rewrite firstn_pre. f_equal.
+    replace (pre ++ it :: m ++ v :: rest) with ((pre ++ it :: m) ++ v :: rest)
+      by (rewrite <- app_assoc; reflexivity).
+    replace (S (length pre) + (0 + length m)) with (length (pre ++ it :: m))
+      by (rewrite app_length; simpl; lia).
+    apply skipn_length_app. }
+  assert (Left' : forall dl, lhs = Some dl ->
+            exists pre' pv mid, pre = pre' ++ pv :: mid /\ is_value pv = true /\ forallb nonvalue mid = true
+              /\ delete_range (length pre - dl) (S (length pre)) (pre ++ it :: post) = pre' ++ pv :: post
+              /\ length pre - dl = length pre' + 1 /\ S (length pre) = S (length pre)).
+  { intros dl H. destruct (Left dl H) as [p' [pv [mid [H1 [H2 [H3 [H4 H5]]]]]]]. exists p', pv, mid. splits; auto. }
+  assert (Right' : forall dr, rhs = Some dr ->
+            exists mid nv post', post = mid ++ nv :: post' /\ is_value nv = true /\ forallb nonvalue mid = true
+              /\ delete_range (length pre) (S (length pre) + dr) (pre ++ it :: post) = pre ++ nv :: post'
+              /\ length pre = length pre /\ S (length pre) + dr = S (length pre) + length mid).
+  { intros dr H. destruct (Right dr H) as [mid [nv [p' [H1 [H2 [H3 [H4 H5]]]]]]]. exists mid, nv, p'. splits; auto. }
+  destruct lhs as [dl|], rhs as [dr|].
+  - destruct (if negb com_l then true else if negb com_r then false else true).
+    + left. now apply Left'.
+    + right. now apply Right'.
+  - left. now apply Left'.
+  - right. now apply Right'.
+  - split; [|assumption]. rewrite forallb_forall in *. intros z Hz. apply HL. now apply in_rev in Hz.
+Qed.
+
+Lemma map_snd_delete_range a b (ns : list node) :
+  map snd (delete_range a b ns) = delete_range a b (map snd ns).
+Proof. unfold delete_range. now rewrite map_app, firstn_map, skipn_map. Qed.
+
+Lemma P_nil : P [] s0.
+Proof. unfold P. splits; try reflexivity. constructor. Qed.
+
+Lemma arun_nonvalue_SV_irrelevant : True. Proof. exact I. Qed.
+
+(** _remove_node for a value node at position [length pre] *)
+Lemma remove_at_inv vw pre it post : inv vw ->
+  v_items vw = pre ++ it :: post -> is_value it = true ->
+  let vw' := remove_at (length pre) vw in
+  inv vw' /\ view_values vw' = values_of pre ++ values_of post /\ v_changed vw' = true.
+Proof.
+  intros Hinv Eits Hv vw'. subst vw'. apply inv_P in Hinv. destruct Hinv as [[s' [HP Hfin]] Hc].
+  unfold view_values.
+  pose proof (remove_range_spec pre it post) as Hspec.
+  unfold remove_at. rewrite v_items_set_changed, Eits.
+  rewrite Eits in HP.
+  destruct (P_app_inv _ _ _ HP) as [s1 [HPa [Hrun [B1 [B2 B3]]]]].
+  cbn [forallb] in B1. apply andb_true_iff in B1. destruct B1 as [Bi B1].
+  destruct (value_item_run _ _ _ _ Bi Hv Hrun) as [Hs [Hrest [t [f [Eit Ht]]]]].
+  rewrite flat_cons in B2, B3. apply Forall_app in B2. destruct B2 as [_ B2].
+  rewrite forallb_app in B3. apply andb_true_iff in B3. destruct B3 as [_ B3].
+  destruct (remove_range (pre ++ it :: post) (length pre)) as [[a b]|].
+  + assert (Hitems : v_items (set_nodes (set_changed vw) (delete_range a b (v_nodes (set_changed vw))))
+                     = delete_range a b (pre ++ it :: post)).
+    { unfold v_items at 1. cbn [set_nodes v_nodes]. rewrite map_snd_delete_range.
+      change (map snd (v_nodes (set_changed vw))) with (v_items vw). now rewrite Eits. }
+    destruct Hspec as [[pre' [pv [mid [Epre [Hpv [Hmid [Hdel _]]]]]]]|[mid [nv [post' [Epost [Hnv [Hmid [Hdel _]]]]]]]].
+    * (* delete to the left: the previous value is followed by what followed the node *)
+      rewrite Hdel in Hitems. splits.
+      -- apply inv_P. split; [|exact Hc]. exists s'. split; [|exact Hfin]. rewrite Hitems.
+         rewrite Epre in HPa.
+         destruct (P_app_inv _ _ _ HPa) as [sa [HPp [Hrun2 [C1 [C2 C3]]]]].
+         cbn [forallb] in C1. apply andb_true_iff in C1. destruct C1 as [Ci C1].
+         destruct (value_item_run _ _ _ _ Ci Hpv Hrun2) as [Hs2 [_ [t2 [f2 [Epv Ht2]]]]].
+         rewrite flat_cons in C2, C3. apply Forall_app in C2. destruct C2 as [C2 _].
+         rewrite forallb_app in C3. apply andb_true_iff in C3. destruct C3 as [C3 _].
+         apply (P_app _ _ sa s' HPp).
+         ++ rewrite flat_cons. rewrite Epv. cbn [item_toks app arun].
+            assert (Hk : tk t2 = KVal) by (unfold is_val in Ht2; destruct (tk t2); try discriminate; reflexivity).
+            rewrite Hk, Hs2. exact Hrest.
+         ++ cbn [forallb]. now rewrite Ci, B1.
+         ++ rewrite flat_cons. apply Forall_app. split; assumption.
+         ++ rewrite flat_cons, forallb_app, C3, B3. reflexivity.
+      -- rewrite Hitems. rewrite Epre. rewrite !values_of_app, !values_of_cons, Hpv.
+         rewrite (values_of_nonvalues mid) by assumption. rewrite app_nil_r.
+         now rewrite <- !app_assoc.
+      -- reflexivity.
+    * (* delete to the right: the next value takes the node's place *)
+      rewrite Hdel in Hitems. splits.
+      -- apply inv_P. split; [|exact Hc]. exists s'. split; [|exact Hfin]. rewrite Hitems.
+         rewrite Epost in Hrest, B1, B2, B3.
+         rewrite flat_app in Hrest, B2, B3. rewrite forallb_app in B1, B3.
+         apply andb_true_iff in B1. destruct B1 as [_ B1].
+         apply andb_true_iff in B3. destruct B3 as [_ B3].
+         apply Forall_app in B2. destruct B2 as [_ B2].
+         rewrite arun_app in Hrest. destruct (arun SV (flat mid)) as [sm|]; [|discriminate].
+         cbn [forallb] in B1. apply andb_true_iff in B1. destruct B1 as [Ci B1].
+         destruct (value_item_run _ _ _ _ Ci Hnv Hrest) as [_ [Hrest2 [t2 [f2 [Env Ht2]]]]].
+         apply (P_app _ _ s1 s' HPa).
+         ++ rewrite flat_cons. rewrite Env. cbn [item_toks app arun].
+            assert (Hk : tk t2 = KVal) by (unfold is_val in Ht2; destruct (tk t2); try discriminate; reflexivity).
+            rewrite Hk, Hs. exact Hrest2.
+         ++ cbn [forallb]. now rewrite Ci, B1.
+         ++ exact B2.
+         ++ exact B3.
+      -- rewrite Hitems. rewrite Epost. rewrite !values_of_app, !values_of_cons, Hnv.
+         rewrite (values_of_nonvalues mid) by assumption. reflexivity.
+      -- reflexivity.
+  + (* the only value: everything goes *)
+    destruct Hspec as [Hp Hq]. splits.
+    * apply inv_P. split; [|exact Hc]. exists s0. split; [apply P_nil|reflexivity].
+    * cbn [set_nodes v_items v_nodes map]. rewrite values_of_nil.
+      now rewrite (values_of_nonvalues pre), (values_of_nonvalues post).
+    * reflexivity.
+Qed.
+
+Lemma remove_inv x vw : inv vw ->
+  match list_remove x (view_values vw) with
+  | Some l' => exists vw', remove x vw = Ok vw' /\ inv vw' /\ view_values vw' = l' /\ v_changed vw' = true
+  | None => exists e, remove x vw = Err e
+  end.
+Proof.
+  intros Hinv.
+  unfold remove, view_values. destruct (find_value x (v_items vw) 0) as [i|] eqn:Ef.
+  - destruct (find_value_some _ _ _ _ Ef) as [pre [it [post [Eits [-> [Hm Hpre]]]]]].
+    destruct (matches_inv _ _ Hm) as [Hv Hr]. cbn [plus].
+    rewrite Eits, values_of_app, values_of_cons, Hv, Hr. cbn [app].
+    rewrite list_remove_first by now apply nomatch_values.
+    eexists. split; [reflexivity|].
+    destruct (remove_at_inv vw pre it post Hinv Eits Hv) as [H1 [H2 H3]]. splits; assumption.
+  - apply find_value_none in Ef. rewrite list_remove_absent by now apply nomatch_values.
+    now eexists.
+Qed.
+
+(** * From an accepted token list back to lines *)
+
+Definition inl (t : tok) : bool := match tk t with KVal | KSep | KWs => true | _ => false end.
+
+Lemma tok_ok_sp_nonempty t : tok_ok_sp t = true -> tx t <> [].
+Proof.
+  unfold tok_ok_sp. destruct t as [k x]. cbn [tk tx]. destruct k; intros H; try discriminate.
+  - apply andb_true_iff in H. destruct H as [H _]. destruct x; discriminate.
+  - apply andb_true_iff in H. destruct H as [H _]. apply andb_true_iff in H. destruct H as [H _]. destruct x; discriminate.
+  - apply andb_true_iff in H. destruct H as [H _]. apply andb_true_iff in H. destruct H as [H _]. destruct x; discriminate.
+  - apply andb_true_iff in H. destruct H as [H _]. destruct x; discriminate.
+  - apply orb_true_iff in H. destruct H as [H|H]; apply str_eqb_eq in H; subst x; discriminate.
+  - apply str_eqb_eq in H. subst x. discriminate.
+Qed.
+
+(** a run of in-line tokens *)
+Lemma inline_run : forall line s s1,
+  forallb inl line = true -> Forall (fun t => tok_ok_sp t = true) line ->
+  arun s line = Some s1 -> s_lf s = false ->
+  s_lf s1 = false
+  /\ s_ok s1 = s_ok s || has_val line
+  /\ no_lb (toks_text line) = true
+  /\ filter nc line = line
+  /\ (has_val line = true -> forallb isws (toks_text line) = false).
+Proof.
+  induction line as [|t line IH]; intros s s1 Hin Hok Hrun Hs.
+  - simpl in Hrun. injection Hrun as <-. splits; auto; try discriminate. now rewrite orb_false_r.
+  - cbn [forallb] in Hin. apply andb_true_iff in Hin. destruct Hin as [Ht Hin].
+    inversion Hok as [|? ? Hokt Hok']; subst. cbn [arun] in Hrun.
+    destruct (astep s (tk t)) as [s2|] eqn:Es; [|discriminate].
+    assert (Hs2 : s_lf s2 = false /\ s_ok s2 = s_ok s || is_val t
+                  /\ no_lb (tx t) = true /\ nc t = true
+                  /\ (is_val t = true -> forallb isws (tx t) = false)).
+    { unfold inl in Ht. unfold tok_ok_sp in Hokt. unfold is_val, nc, is_comment_tok.
+      destruct (tk t) eqn:Ek; try discriminate; cbn [astep] in Es; cbn [kind_eqb negb].
+      - destruct (s_lf s || s_pv s); [discriminate|]. injection Es as <-. cbn [s_lf s_ok].
+        apply andb_true_iff in Hokt. destruct Hokt as [Hne Hw]. splits; auto.
+        + now rewrite orb_true_r.
+        + now apply notws_no_lb.
+        + intros _. destruct (tx t) as [|c x]; [discriminate|]. cbn [forallb] in *.
+          apply andb_true_iff in Hw. destruct Hw as [Hc _]. unfold notws in Hc.
+          apply negb_true_iff in Hc. unfold isws. now rewrite Hc.
+      - rewrite Hs in Es. injection Es as <-. cbn [s_lf s_ok].
+        apply andb_true_iff in Hokt. destruct Hokt as [_ Hlb]. splits; auto; try discriminate. now rewrite orb_false_r.
+      - rewrite Hs in Es. injection Es as <-. cbn [s_lf s_ok].
+        apply andb_true_iff in Hokt. destruct Hokt as [_ Hlb]. splits; auto; try discriminate. now rewrite orb_false_r. }
+    destruct Hs2 as [A1 [A2 [A3 [A4 A5]]]].
+    destruct (IH s2 s1 Hin Hok' Hrun A1) as [B1 [B2 [B3 [B4 B5]]]].
+    splits.
+    + exact B1.
+    + rewrite B2, A2. cbn [has_val existsb]. fold (has_val line). now rewrite orb_assoc.
+    + rewrite toks_text_cons, no_lb_app, A3, B3. reflexivity.
+    + cbn [filter]. now rewrite A4, B4.
+    + cbn [has_val existsb]. fold (has_val line). intros H. rewrite toks_text_cons, forallb_app.
+      apply orb_true_iff in H. destruct H as [H|H].
+      * now rewrite A5.
+      * rewrite B5 by assumption. now rewrite andb_false_r.
+Qed.
+
+(** the tokens up to the first line end *)
+Lemma split_at_lf : forall ts s s',
+  arun s ts = Some s' -> s_lf s = false -> s_lf s' = true ->
+  Forall (fun t => tok_ok_sp t = true) ts ->
+  exists line rest s1, ts = line ++ Tok KNl [LF] :: rest
+    /\ forallb inl line = true /\ arun s line = Some s1 /\ s_ok s1 = true
+    /\ arun sLF rest = Some s'.
+Proof.
+  induction ts as [|t r IH]; intros s s' Hrun Hs Hs' Hok.
+  - simpl in Hrun. injection Hrun as <-. congruence.
+  - inversion Hok as [|? ? Hokt Hok']; subst. cbn [arun] in Hrun.
+    destruct (astep s (tk t)) as [s2|] eqn:Es; [|discriminate].
+    destruct (tk t) eqn:Ek; cbn [astep] in Es; try discriminate; try (rewrite Hs in Es; discriminate).
+    + destruct (s_lf s || s_pv s) eqn:E0; [discriminate|]. injection Es as <-.
+      destruct (IH _ _ Hrun eq_refl Hs' Hok') as [line [rest [s1 [-> [Hin [Hr [Hk Hrest]]]]]]].
+      exists (t :: line), rest, s1. splits; auto.
+      * cbn [forallb]. unfold inl at 1. now rewrite Ek, Hin.
+      * cbn [arun]. rewrite Ek. cbn [astep]. rewrite E0. exact Hr.
+    + rewrite Hs in Es. injection Es as <-.
+      destruct (IH _ _ Hrun eq_refl Hs' Hok') as [line [rest [s1 [-> [Hin [Hr [Hk Hrest]]]]]]].
+      exists (t :: line), rest, s1. splits; auto.
+      * cbn [forallb]. unfold inl at 1. now rewrite Ek, Hin.
+      * cbn [arun]. rewrite Ek. cbn [astep]. now rewrite Hs.
+    + rewrite Hs in Es. injection Es as <-.
+      destruct (IH _ _ Hrun eq_refl Hs' Hok') as [line [rest [s1 [-> [Hin [Hr [Hk Hrest]]]]]]].
+      exists (t :: line), rest, s1. splits; auto.
+      * cbn [forallb]. unfold inl at 1. now rewrite Ek, Hin.
+      * cbn [arun]. rewrite Ek. cbn [astep]. now rewrite Hs.
+    + rewrite Hs in Es. cbn [orb] in Es. destruct (s_ok s) eqn:Eo; [|discriminate].
+      cbn [negb] in Es. injection Es as <-.
+      exists [], r, s. splits; auto.
+      unfold tok_ok_sp in Hokt. rewrite Ek in Hokt. apply str_eqb_eq in Hokt.
+      destruct t as [k x]. cbn [tk tx] in *. now subst.
+Qed.
+
+(** a complete continuation or comment line *)
+Definition shape (l : str) : bool :=
+  ends_with_lf l && no_lb (removelast l)
+  && (starts_hash l || (starts_sp_tab l && negb (blank l))).
+
+Definition last_com_line (ls : list str) : bool :=
+  match last_opt ls with Some l => starts_hash l | None => false end.
+Definition last_com_tok (ts : list tok) : bool :=
+  match last_opt ts with Some t => is_comment_tok t | None => false end.
+
+Lemma no_lb_lf_only b : no_lb b = true -> lf_only b = true.
+Proof.
+  unfold no_lb, lf_only. rewrite !forallb_forall. intros H c Hc. now rewrite H.
+Qed.
+
+Lemma lf_only_cons_line b r : no_lb b = true -> lf_only r = true -> lf_only (b ++ LF :: r) = true.
+Proof.
+  intros Hb Hr. rewrite lf_only_app, (no_lb_lf_only b Hb). cbn [andb].
+  change (lf_only (LF :: r)) with (true && lf_only r). exact Hr.
+Qed.
+
+Lemma toks_text_nonempty ts : ts <> [] -> Forall (fun t => tok_ok_sp t = true) ts -> toks_text ts <> [].
+Proof.
+  destruct ts as [|t ts]; [congruence|]. intros _ H. inversion H; subst.
+  rewrite toks_text_cons. pose proof (tok_ok_sp_nonempty t H2). destruct (tx t); [congruence|discriminate].
+Qed.
+
+Lemma lines_lf_nonempty v : v <> [] -> lines_lf v <> [].
+Proof.
+  intros Hv E. pose proof (splitlines_keepends_concat is_lf v) as H. unfold lines_lf in E.
+  rewrite E in H. simpl in H. congruence.
+Qed.
+
+Lemma blank_app a b : blank (a ++ b) = blank a && blank b.
+Proof. apply forallb_app. Qed.
+
+Lemma cont_tokens_lines : forall n ts s',
+  length ts <= n ->
+  Forall (fun t => tok_ok_sp t = true) ts -> forallb com_lf ts = true ->
+  arun sLF ts = Some s' -> s_lf s' = true ->
+  let v := toks_text ts in
+  lf_only v = true
+  /\ forallb shape (lines_lf v) = true
+  /\ concat (filter noncomment_line (lines_lf v)) = toks_text (filter nc ts)
+  /\ last_com_line (lines_lf v) = last_com_tok ts.
+Proof.
+  induction n as [|n IH]; intros ts s' Hn Hok Hcl Hrun Hs' v.
+  { destruct ts; [|simpl in Hn; lia]. subst v. splits; reflexivity. }
+  destruct ts as [|t r]; [subst v; splits; reflexivity|].
+  inversion Hok as [|? ? Hokt Hok']; subst. cbn [forallb] in Hcl. apply andb_true_iff in Hcl.
+  destruct Hcl as [Hct Hcl']. cbn [arun] in Hrun. simpl in Hn.
+  destruct (astep sLF (tk t)) as [s2|] eqn:Es; [|discriminate].
+  destruct (tk t) eqn:Ek; cbn [astep sLF s_lf] in Es; try discriminate.
+  - (* a comment line *)
+    injection Es as <-. fold sLF in Hrun.
+    assert (Hcm : is_comment_tok t = true) by (unfold is_comment_tok; now rewrite Ek).
+    unfold com_lf in Hct. rewrite Hcm in Hct.
+    unfold tok_ok_sp in Hokt. rewrite Ek in Hokt. apply andb_true_iff in Hokt. destruct Hokt as [Hh Hlb].
+    assert (Etx : tx t = removelast (tx t) ++ [LF]).
+    { unfold ends_with_lf in Hct. destruct (last_opt (tx t)) as [c|] eqn:El; [|discriminate].
+      apply N.eqb_eq in Hct. subst c. now apply ends_snoc_inv. }
+    set (b := removelast (tx t)) in *.
+    destruct (IH r s' ltac:(lia) Hok' Hcl' Hrun Hs') as [I1 [I2 [I3 I4]]].
+    subst v. rewrite toks_text_cons, Etx, <- app_assoc. cbn [app].
+    rewrite lines_lf_line by now apply no_lb_no_lf.
+    assert (Hhb : starts_hash (b ++ [LF]) = true) by now rewrite <- Etx.
+    splits.
+    + now apply lf_only_cons_line.
+    + cbn [forallb]. rewrite I2, andb_true_r. unfold shape.
+      rewrite ends_with_lf_snoc, removelast_snoc, Hlb, Hhb. reflexivity.
+    + cbn [filter]. unfold nc at 1. rewrite Hcm. cbn [negb].
+      assert (Hn' : noncomment_line (b ++ [LF]) = false).
+      { unfold noncomment_line, is_comment_line. unfold starts_hash in Hhb.
+        destruct (b ++ [LF]); [discriminate|]. unfold HASH in Hhb. now rewrite Hhb. }
+      rewrite Hn'. exact I3.
+    + destruct r as [|t2 r2].
+      * cbn. now rewrite Hhb, Hcm.
+      * unfold last_com_line, last_com_tok in *.
+        rewrite !last_opt_cons by (try discriminate; apply lines_lf_nonempty; apply toks_text_nonempty; [discriminate|assumption]).
+        exact I4.
+  - (* a continuation line *)
+    injection Es as <-.
+    destruct (split_at_lf r _ s' Hrun eq_refl Hs' Hok') as [line [rest [s1 [-> [Hin [Hr [Hk Hrest]]]]]]].
+    apply Forall_app in Hok'. destruct Hok' as [Hokl Hokr]. inversion Hokr as [|? ? _ Hokr']; subst.
+    rewrite forallb_app in Hcl'. apply andb_true_iff in Hcl'. destruct Hcl' as [_ Hclr].
+    cbn [forallb] in Hclr. apply andb_true_iff in Hclr. destruct Hclr as [_ Hclr].
+    destruct (inline_run line _ s1 Hin Hokl Hr eq_refl) as [_ [L2 [L3 [L4 L5]]]].
+    cbn [s_ok orb] in L2. rewrite Hk in L2. symmetry in L2. specialize (L5 L2).
+    assert (Hlen : length rest <= n) by (rewrite app_length in Hn; simpl in Hn; lia).
+    destruct (IH rest s' Hlen Hokr' Hclr Hrest Hs') as [I1 [I2 [I3 I4]]].
+    unfold tok_ok_sp in Hokt. rewrite Ek in Hokt.
+    assert (Hc : exists c, tx t = [c] /\ (c =? SP)%N || (c =? TAB)%N = true).
+    { apply orb_true_iff in Hokt. destruct Hokt as [H|H]; apply str_eqb_eq in H; rewrite H.
+      - exists SP. split; reflexivity.
+      - exists TAB. split; reflexivity. }
+    destruct Hc as [c [Etx Hc]].
+    assert (Hlbc : no_lb [c] = true).
+    { apply orb_true_iff in Hc. destruct Hc as [H|H]; apply N.eqb_eq in H; subst c; reflexivity. }
+    subst v. rewrite toks_text_cons, toks_text_app, toks_text_cons, Etx. cbn [tx].
+    set (body := toks_text line) in *.
+    replace ([c] ++ body ++ [LF] ++ toks_text rest) with ((c :: body) ++ LF :: toks_text rest)
+      by reflexivity.
+    assert (Hlbb : no_lb (c :: body) = true).
+    { change (c :: body) with ([c] ++ body). now rewrite no_lb_app, Hlbc, L3. }
+    rewrite lines_lf_line by now apply no_lb_no_lf.
+    assert (Hnh : starts_hash ((c :: body) ++ [LF]) = false).
+    { cbn. apply orb_true_iff in Hc. destruct Hc as [H|H]; apply N.eqb_eq in H; subst c; reflexivity. }
+    splits.
+    + now apply lf_only_cons_line.
+    + cbn [forallb]. rewrite I2, andb_true_r. unfold shape.
+      rewrite ends_with_lf_snoc, removelast_snoc, Hlbb, Hnh. cbn [andb orb].
+      assert (Hst : starts_sp_tab ((c :: body) ++ [LF]) = true) by exact Hc.
+      rewrite Hst. cbn [andb]. apply negb_true_iff.
+      change ((c :: body) ++ [LF]) with ([c] ++ body ++ [LF]). rewrite !blank_app.
+      unfold blank at 2. change py_isspace with isws. rewrite L5. now rewrite andb_false_r.
+    + cbn [filter]. unfold noncomment_line at 1, is_comment_line.
+      assert (Hnc : (c =? 35)%N = false).
+      { apply orb_true_iff in Hc. destruct Hc as [H|H]; apply N.eqb_eq in H; subst c; reflexivity. }
+      cbn [app]. rewrite Hnc. cbn [negb concat]. rewrite I3.
+      assert (Hnt : nc t = true) by (unfold nc, is_comment_tok; now rewrite Ek).
+      rewrite Hnt. rewrite filter_app. cbn [filter nc is_comment_tok tk kind_eqb negb].
+      rewrite L4. rewrite toks_text_cons, toks_text_app, toks_text_cons, Etx. cbn [tx app].
+      fold body. now rewrite <- app_assoc.
+    + destruct rest as [|t2 r2].
+      * change (toks_text []) with (@nil N). rewrite lines_lf_nil.
+        unfold last_com_line, last_com_tok.
+        rewrite (last_opt_cons t) by (destruct line; discriminate).
+        rewrite last_opt_snoc. cbn [last_opt]. rewrite Hnh. reflexivity.
+      * unfold last_com_line, last_com_tok in *.
+        rewrite last_opt_cons by (apply lines_lf_nonempty; apply toks_text_nonempty; [discriminate|assumption]).
+        rewrite I4. rewrite (last_opt_cons t) by (destruct line; discriminate).
+        rewrite last_opt_app by discriminate.
+        rewrite (last_opt_cons (Tok KNl [LF])) by discriminate. reflexivity.
+Qed.
+
+(** * The text that _update_field writes *)
+
+Lemma has_val_not_blank ts : Forall (fun t => tok_ok_sp t = true) ts -> has_val ts = true ->
+  forallb isws (toks_text ts) = false.
+Proof.
+  induction ts as [|t ts IH]; intros Hok Hv; [discriminate|].
+  inversion Hok as [|? ? Ht Hok']; subst. cbn [has_val existsb] in Hv. fold (has_val ts) in Hv.
+  rewrite toks_text_cons, forallb_app. destruct (is_val t) eqn:Ev.
+  - unfold is_val in Ev. unfold tok_ok_sp in Ht. destruct (tk t); try discriminate.
+    apply andb_true_iff in Ht. destruct Ht as [Hne Hw]. destruct (tx t) as [|c x]; [discriminate|].
+    cbn [forallb] in *. apply andb_true_iff in Hw. destruct Hw as [Hc _]. unfold notws in Hc.
+    apply negb_true_iff in Hc. unfold isws. now rewrite Hc.
+  - cbn [orb] in Hv. rewrite IH by assumption. now rewrite andb_false_r.
+Qed.
+
+Lemma shape_cont_line_ok l : shape l = true -> cont_line_ok l = true.
+Proof.
+  unfold shape, cont_line_ok. intros H. apply andb_true_iff in H. destruct H as [_ H].
+  destruct l as [|c l]; [discriminate|]. cbn [starts_hash starts_sp_tab starts_cont] in *.
+  apply orb_true_iff in H. destruct H as [H|H].
+  - apply N.eqb_eq in H. subst c. reflexivity.
+  - apply andb_true_iff in H. destruct H as [H1 H2]. rewrite H2, andb_true_r.
+    apply orb_true_iff in H1. destruct H1 as [H1|H1]; apply N.eqb_eq in H1; subst c; reflexivity.
+Qed.
+
+Lemma forallb_impl {A} (p q : A -> bool) l : (forall a, p a = true -> q a = true) ->
+  forallb p l = true -> forallb q l = true.
+Proof. intros H. rewrite !forallb_forall. auto. Qed.
+
+(** the written tokens: accepted from the start state, ending a line, not ending on a comment,
+    holding at least one value *)
+Lemma written_text ts s' :
+  Forall (fun t => tok_ok_sp t = true) ts -> forallb com_lf ts = true ->
+  arun s0 ts = Some s' -> s_lf s' = true -> last_com_tok ts = false -> has_val ts = true ->
+  let v := toks_text ts in
+  exists b ls, lines_lf v = (b ++ [LF]) :: ls /\ no_lb b = true
+    /\ forallb shape ls = true /\ last_com_line ls = false
+    /\ lf_only v = true /\ value_ok v = true
+    /\ drop_comment_lines v = toks_text (filter nc ts).
+Proof.
+  intros Hok Hcl Hrun Hs' Hlast Hhv v.
+  destruct (split_at_lf ts s0 s' Hrun eq_refl Hs' Hok) as [line [rest [s1 [E [Hin [Hr [Hk Hrest]]]]]]].
+  assert (Hok2 := Hok). rewrite E in Hok2. apply Forall_app in Hok2. destruct Hok2 as [Hokl Hokr].
+  inversion Hokr as [|? ? _ Hokr']; subst.
+  rewrite forallb_app in Hcl. apply andb_true_iff in Hcl. destruct Hcl as [_ Hclr].
+  cbn [forallb] in Hclr. apply andb_true_iff in Hclr. destruct Hclr as [_ Hclr].
+  destruct (inline_run line s0 s1 Hin Hokl Hr eq_refl) as [_ [_ [L3 [L4 _]]]].
+  destruct (cont_tokens_lines (length rest) rest s' (le_n _) Hokr' Hclr Hrest Hs') as [I1 [I2 [I3 I4]]].
+  set (body := toks_text line) in *.
+  assert (Ev : v = body ++ LF :: toks_text rest).
+  { subst v. now rewrite toks_text_app, toks_text_cons. }
+  assert (Hlines : lines_lf v = (body ++ [LF]) :: lines_lf (toks_text rest)).
+  { rewrite Ev. apply lines_lf_line. now apply no_lb_no_lf. }
+  assert (Hlf : lf_only v = true) by (rewrite Ev; now apply lf_only_cons_line).
+  assert (Hlc : last_com_line (lines_lf (toks_text rest)) = false).
+  { rewrite I4. destruct rest as [|t2 r2]; [reflexivity|].
+    unfold last_com_tok in *. rewrite last_opt_app in Hlast by discriminate.
+    now rewrite (last_opt_cons (Tok KNl [LF])) in Hlast by discriminate. }
+  exists body, (lines_lf (toks_text rest)). splits; auto.
+  - unfold value_ok. rewrite Hlf, Hlines. cbn [andb].
+    change (fun l : str => starts_cont l && negb (blank l)) with cont_line_ok.
+    rewrite (forallb_impl shape cont_line_ok _ shape_cont_line_ok I2), andb_true_r.
+    apply negb_true_iff. unfold blank. change py_isspace with isws.
+    now apply has_val_not_blank.
+  - unfold drop_comment_lines. rewrite Hlines.
+    change (fun l : str => negb (is_comment_line l)) with noncomment_line. rewrite I3.
+    rewrite filter_app. cbn [filter nc is_comment_tok tk kind_eqb negb].
+    rewrite L4, toks_text_app, toks_text_cons. cbn [tx]. fold body. now rewrite <- app_assoc.
+Qed.
+
+(** * The re-parse of the written text *)
+
+Definition name_ok (name : str) : bool :=
+  match name with c :: r => fn_first c && forallb fn_rest r | [] => false end.
+
+Lemma fn_rest_range c : fn_rest c = true -> (33 <= c /\ c <= 127 /\ c <> 58)%N.
+Proof.
+  unfold fn_rest. rewrite orb_true_iff, !andb_true_iff, !N.leb_le. lia.
+Qed.
+
+Lemma fn_first_range c : fn_first c = true -> (33 <= c /\ c <= 127 /\ c <> 58 /\ c <> 35)%N.
+Proof.
+  unfold fn_first. rewrite !orb_true_iff, !andb_true_iff, !N.leb_le, !N.eqb_eq. lia.
+Qed.
+
+Lemma ascii_printable_not_lb c : (33 <= c /\ c <= 127)%N -> py_islinebreak c = false.
+Proof.
+  intros H. unfold py_islinebreak, py_linebreaks. cbn [existsb].
+  repeat match goal with |- context [(c =? ?k)%N] => destruct (N.eqb_spec c k); [lia|] end.
+  reflexivity.
+Qed.
+
+Lemma ascii_printable_not_ws c : (33 <= c /\ c <= 127)%N -> isws c = false.
+Proof.
+  intros H. unfold isws, py_isspace, in_ranges, py_space_ranges. cbn [existsb fst snd].
+  repeat match goal with
+  | |- context [((?lo <=? c)%N && (c <=? ?hi)%N)] =>
+      replace ((lo <=? c)%N && (c <=? hi)%N) with false
+        by (symmetry; apply andb_false_iff; rewrite !N.leb_gt; lia)
+  end.
+  reflexivity.
+Qed.
+
+Lemma name_ok_chars name : name_ok name = true ->
+  exists c r, name = c :: r /\ fn_first c = true /\ forallb fn_rest r = true
+    /\ no_lb name = true /\ isws c = false /\ (c =? HASH)%N = false
+    /\ (c =? SP)%N = false /\ (c =? TAB)%N = false.
+Proof.
+  unfold name_ok. destruct name as [|c r]; [discriminate|]. intros H.
+  apply andb_true_iff in H. destruct H as [H1 H2]. exists c, r.
+  pose proof (fn_first_range c H1) as R1. splits; auto.
+  - cbn [no_lb forallb]. rewrite ascii_printable_not_lb by lia. cbn [negb andb].
+    rewrite forallb_forall in *. intros a Ha. specialize (H2 a Ha). apply fn_rest_range in H2.
+    rewrite ascii_printable_not_lb by lia. reflexivity.
+  - apply ascii_printable_not_ws. lia.
+  - apply N.eqb_neq. unfold HASH. lia.
+  - apply N.eqb_neq. unfold SP. lia.
+  - apply N.eqb_neq. unfold TAB. lia.
+Qed.
+
+Lemma shape_facts l : shape l = true ->
+  ends_with_lf l = true /\ all_ws l = false
+  /\ (starts_hash l = true \/ starts_hash l = false /\ starts_sp_tab l = true).
+Proof.
+  unfold shape. intros H. apply andb_true_iff in H. destruct H as [H H3].
+  apply andb_true_iff in H. destruct H as [H1 _]. split; [assumption|].
+  destruct l as [|c l]; [discriminate|].
+  apply orb_true_iff in H3. destruct H3 as [H3|H3].
+  - split; [|now left]. cbn [starts_hash] in H3. apply N.eqb_eq in H3. subst c.
+    unfold all_ws. cbn [nonempty forallb]. now rewrite isws_HASH.
+  - apply andb_true_iff in H3. destruct H3 as [H3 H4]. split.
+    + unfold all_ws. unfold blank in H4. apply negb_true_iff in H4. change py_isspace with isws in H4.
+      now rewrite H4, andb_false_r.
+    + destruct (starts_hash (c :: l)) eqn:E; [now left|right; now split].
+Qed.
+
+Lemma has_error_line_shape ls : forallb shape ls = true -> has_error_line true ls = false.
+Proof.
+  induction ls as [|l ls IH]; [reflexivity|]. cbn [forallb]. intros H.
+  apply andb_true_iff in H. destruct H as [Hl H].
+  destruct (shape_facts l Hl) as [_ [Haw Hk]]. cbn [has_error_line]. rewrite Haw.
+  destruct Hk as [Hh|[Hh Hs]]; rewrite Hh; [now apply IH|]. rewrite Hs. now apply IH.
+Qed.
+
+Lemma para_names_shape ls cur : forallb shape ls = true -> para_names cur ls = [rev cur].
+Proof.
+  revert cur. induction ls as [|l ls IH]; intros cur H; [reflexivity|]. cbn [forallb] in H.
+  apply andb_true_iff in H. destruct H as [Hl H].
+  destruct (shape_facts l Hl) as [_ [Haw Hk]]. cbn [para_names]. rewrite Haw.
+  destruct Hk as [Hh|[Hh Hs]]; rewrite Hh; cbn [orb]; [now apply IH|]. rewrite Hs. now apply IH.
+Qed.
+
+Lemma take_value_lines_shape : forall ls pending,
+  forallb shape ls = true -> last_com_line ls = false -> ls <> [] ->
+  take_value_lines pending ls = pending ++ ls.
+Proof.
+  induction ls as [|l ls IH]; intros pending H Hlast Hne; [congruence|].
+  cbn [forallb] in H. apply andb_true_iff in H. destruct H as [Hl H].
+  destruct (shape_facts l Hl) as [_ [Haw Hk]]. cbn [take_value_lines]. rewrite Haw.
+  destruct ls as [|l2 ls2].
+  - destruct Hk as [Hh|[Hh Hs]].
+    + unfold last_com_line in Hlast. cbn [last_opt] in Hlast. congruence.
+    + rewrite Hh, Hs. reflexivity.
+  - assert (Hlast' : last_com_line (l2 :: ls2) = false).
+    { unfold last_com_line in *. now rewrite last_opt_cons in Hlast by discriminate. }
+    destruct Hk as [Hh|[Hh Hs]].
+    + rewrite Hh. rewrite IH by (try assumption; discriminate). now rewrite <- app_assoc.
+    + rewrite Hh, Hs. rewrite IH by (try assumption; discriminate). reflexivity.
+Qed.
+
+Lemma forallb_removelast {A} (p : A -> bool) l : forallb p l = true -> forallb p (removelast l) = true.
+Proof.
+  intros H. destruct l as [|a l] using rev_ind; [reflexivity|].
+  rewrite removelast_snoc. rewrite forallb_app in H. apply andb_true_iff in H. tauto.
+Qed.
+
+Lemma skipn_app_length {A} (a b : list A) n : n = length a -> skipn n (a ++ b) = b.
+Proof. intros ->. apply skipn_length_app. Qed.
+
+Lemma reparse_ok name v b ls :
+  name_ok name = true -> lf_only v = true ->
+  lines_lf v = (b ++ [LF]) :: ls -> no_lb b = true ->
+  forallb shape ls = true -> last_com_line ls = false ->
+  reparse name v = Ok v.
+Proof.
+  intros Hname Hlf Hlines Hb Hshape Hlast.
+  destruct (name_ok_chars name Hname) as [c [r [En [Hc [Hr [Hnlb [Hcws [Hch [Hcsp Hctab]]]]]]]]].
+  pose proof (splitlines_keepends_concat is_lf v) as Hcat. fold (lines_lf v) in Hcat.
+  rewrite Hlines in Hcat. cbn [concat] in Hcat.
+  set (rest := concat ls) in *.
+  assert (Ev : v = b ++ LF :: rest) by (rewrite <- Hcat; now rewrite <- app_assoc).
+  assert (Hls : lines_lf rest = ls).
+  { rewrite Ev in Hlines. rewrite lines_lf_line in Hlines by now apply no_lb_no_lf. congruence. }
+  unfold reparse.
+  set (head := name ++ [COLON] ++ b).
+  assert (Etext : name ++ [COLON] ++ v = head ++ LF :: rest).
+  { subst head. rewrite Ev. now rewrite <- !app_assoc. }
+  assert (Hhead : no_lb head = true).
+  { subst head. rewrite !no_lb_app, Hnlb, Hb. reflexivity. }
+  assert (Hlft : lf_only (name ++ [COLON] ++ v) = true).
+  { rewrite !lf_only_app, Hlf, (no_lb_lf_only name Hnlb). reflexivity. }
+  rewrite splitlines_lf_only by assumption. rewrite Etext.
+  rewrite lines_lf_line by now apply no_lb_no_lf. rewrite Hls.
+  set (l1 := head ++ [LF]).
+  assert (Hends : forallb ends_with_lf ls = true).
+  { apply (forallb_impl shape); [|assumption]. intros l Hl. now destruct (shape_facts l Hl). }
+  (* normalize_lines *)
+  assert (Hnorm : normalize_lines (l1 :: ls) = Ok (l1 :: ls)).
+  { unfold normalize_lines. subst l1. rewrite ends_with_lf_snoc.
+    rewrite forallb_removelast; [reflexivity|]. cbn [forallb]. now rewrite ends_with_lf_snoc, Hends. }
+  rewrite Hnorm. cbn [bind].
+  (* the first line is the field line *)
+  assert (El1 : l1 = c :: (r ++ COLON :: b ++ [LF])).
+  { subst l1 head. rewrite En. cbn [app]. now rewrite <- !app_assoc. }
+  assert (Hfn : field_name_of l1 = Some name).
+  { rewrite El1. unfold field_name_of. rewrite Hc.
+    rewrite (span_forall_app fn_rest r COLON (b ++ [LF]) Hr eq_refl).
+    change (COLON =? COLON)%N with true. cbn iota. now rewrite En. }
+  assert (Haw1 : all_ws l1 = false).
+  { rewrite El1. unfold all_ws. cbn [nonempty forallb]. now rewrite Hcws. }
+  assert (Hh1 : starts_hash l1 = false) by (rewrite El1; exact Hch).
+  assert (Hs1 : starts_sp_tab l1 = false) by (rewrite El1; cbn [starts_sp_tab]; now rewrite Hcsp, Hctab).
+  assert (Herr : has_error_line false (l1 :: ls) = false).
+  { cbn [has_error_line]. rewrite Haw1, Hh1, Hs1, Hfn. now apply has_error_line_shape. }
+  rewrite Herr.
+  assert (Hpn : para_names [] (l1 :: ls) = [[ascii_lower name]]).
+  { cbn [para_names]. rewrite Haw1, Hh1, Hs1, Hfn. cbn [orb]. now rewrite para_names_shape. }
+  rewrite Hpn. cbn [existsb has_dup orb]. rewrite Hfn, str_eqb_refl.
+  f_equal. rewrite Ev.
+  assert (Hsk : skipn (S (length name)) l1 = b ++ [LF]).
+  { subst l1 head. replace ((name ++ [COLON] ++ b) ++ [LF]) with ((name ++ [COLON]) ++ (b ++ [LF]))
+      by (now rewrite <- !app_assoc).
+    apply skipn_app_length. rewrite app_length. simpl. lia. }
+  rewrite Hsk. destruct ls as [|l2 ls2].
+  - subst rest. cbn [take_value_lines concat]. now rewrite app_nil_r.
+  - rewrite take_value_lines_shape by (try assumption; discriminate).
+    cbn [app]. subst rest. now rewrite <- app_assoc.
+Qed.
+
+(** * _update_field: what is written reads back as the values of the view *)
+
+Lemma has_content_has_val its :
+  Forall (fun t => tok_ok_sp t = true) (flat its) -> has_content its = true -> has_val (flat its) = true.
+Proof.
+  unfold has_content. fold (flat its). generalize (flat its). intros ts Hok H.
+  apply existsb_exists in H. destruct H as [t [Hin Ht]]. unfold has_val. apply existsb_exists.
+  exists t. split; [assumption|]. rewrite Forall_forall in Hok. specialize (Hok t Hin).
+  unfold tok_ok_sp in Hok. unfold is_comment_tok, is_whitespace_tok, is_val in *.
+  destruct (tk t); try discriminate; reflexivity.
+Qed.
+
+Lemma last_opt_flat_snoc its it : last_opt (flat (its ++ [it])) = last_opt (item_toks it) \/ item_toks it = [].
+Proof.
+  rewrite flat_app. cbn [flat flat_map]. rewrite app_nil_r.
+  destruct (item_toks it) eqn:E; [now right|left]. apply last_opt_app. discriminate.
+Qed.
+
+Theorem update_field_readback name vw v' :
+  inv vw -> name_ok name = true -> update_field name vw = Ok v' ->
+  value_ok v' = true
+  /\ reparse name v' = Ok v'
+  /\ exists vw', interpret Space v' = Ok vw' /\ view_values vw' = view_values vw.
+Proof.
+  intros Hinv Hname Hup. apply inv_P in Hinv. destruct Hinv as [[s' [HP Hfin]] _].
+  unfold update_field in Hup. set (its := v_items vw) in *.
+  destruct (has_content its) eqn:Hcont; [|discriminate]. cbn [negb] in Hup.
+  destruct (last_opt its) as [tail|] eqn:El; [|discriminate].
+  destruct (is_comment_item tail) eqn:Etc; [discriminate|].
+  apply ends_snoc_inv in El. set (its0 := removelast its) in *.
+  (* the written items end a line *)
+  assert (W : exists its' s'', (if item_ends_lf tail then its else its ++ [IT (Tok KNl [LF])]) = its'
+               /\ P its' s'' /\ s_lf s'' = true /\ last_com_tok (flat its') = false
+               /\ values_of its' = values_of its /\ has_val (flat its') = true).
+  { destruct (tail_state _ _ HP) as [T1 _]. unfold last_lf in T1. rewrite El, last_opt_snoc in T1.
+    assert (Hhv : has_val (flat its) = true).
+    { destruct HP as [_ [H2 _]]. now apply has_content_has_val. }
+    destruct (item_ends_lf tail) eqn:Et.
+    - exists its, s'. splits; auto.
+      rewrite El. unfold last_com_tok.
+      destruct HP as [H1 _]. rewrite El, forallb_app in H1. apply andb_true_iff in H1.
+      destruct H1 as [_ H1]. cbn [forallb] in H1. rewrite andb_true_r in H1.
+      destruct (last_opt_flat_snoc its0 tail) as [E|E].
+      + rewrite E. destruct (item_sp_cases tail H1) as [[t [-> Hv]]|[t [f [-> Hv]]]]; cbn [item_toks last_opt].
+        * exact Etc.
+        * now apply is_val_nc.
+      + destruct (item_sp_cases tail H1) as [[t [-> Hv]]|[t [f [-> Hv]]]]; discriminate.
+    - exists (its ++ [IT (Tok KNl [LF])]), sLF. splits; auto.
+      + apply P_push_IT with s'; try assumption; try reflexivity.
+        cbn [tk astep]. rewrite T1. cbn [orb]. rewrite T1, orb_false_r in Hfin. now rewrite Hfin.
+      + unfold last_com_tok. rewrite flat_app. cbn [flat flat_map item_toks app].
+        now rewrite last_opt_snoc.
+      + rewrite values_of_app. unfold values_of at 2. simpl. now rewrite app_nil_r.
+      + rewrite flat_app. unfold has_val. rewrite existsb_app. fold (has_val (flat its)). now rewrite Hhv. }
+  destruct W as [its' [s'' [Eits' [HP' [Hlf' [Hlast' [Hvals' Hhv']]]]]]].
+  rewrite Eits' in Hup. rewrite items_text_flat in Hup.
+  destruct HP' as [Q1 [Q2 [Q3 Q4]]].
+  destruct (written_text (flat its') s'' Q2 Q3 Q4 Hlf' Hlast' Hhv')
+    as [b [ls [Hlines [Hb [Hshape [Hlc [Hlfo [Hvok Hdrop]]]]]]]].
+  pose proof (reparse_ok name _ b ls Hname Hlfo Hlines Hb Hshape Hlc) as Hrp.
+  rewrite Hrp in Hup. injection Hup as <-.
+  split; [exact Hvok|]. split; [exact Hrp|].
+  destruct (view_reads_split_space _ Hvok) as [vw' [Hi Hv]].
+  exists vw'. split; [exact Hi|]. rewrite Hv. unfold split_spec. rewrite Hdrop.
+  change py_isspace with isws.
+  destruct (sp_vals (flat its') s0 s'' Q2 Q4) as [Hsv _]. rewrite Hsv.
+  rewrite <- values_of_flat by assumption. rewrite Hvals'. reflexivity.
+Qed.
+
+(** * A whole session of direct edits *)
+
+(** the operations this development proves: append / remove / replace, new values being
+    good values of a whitespace-separated list (non-empty, no whitespace) *)
+Definition edit_op (o : op) : bool :=
+  match o with
+  | OAppend x => good_value false x
+  | ORemove _ => true
+  | OReplace _ y => good_value false y
+  | _ => false
+  end.
+
+(** the same operation on a Python list ([None]: list.remove / replace raise ValueError) *)
+Definition l_step (o : op) (l : list str) : option (list str) :=
+  match o with
+  | OAppend x => Some (l ++ [x])
+  | ORemove x => list_remove x l
+  | OReplace x y => list_replace x y l
+  | _ => None
+  end.
+
+(** a sequence of list operations: the list after every operation that is applicable
+    ([None] for a refused one, which leaves the list as it is), and the final list *)
+Fixpoint l_run (os : list op) (l : list str) : list (option (list str)) * list str :=
+  match os with
+  | [] => ([], l)
+  | o :: os' =>
+      match l_step o l with
+      | Some l' => let (outs, lf) := l_run os' l' in (Some l' :: outs, lf)
+      | None => let (outs, lf) := l_run os' l in (None :: outs, lf)
+      end
+  end.
+
+Definition outcome_list (o : outcome) : option (list str) :=
+  match o with Done vals _ => Some vals | Failed _ => None end.
+
+Lemma step_edit o vw : inv vw -> edit_op o = true ->
+  match l_step o (view_values vw) with
+  | Some l' => exists vw', step Space o vw = (vw', None, None) /\ inv vw'
+                           /\ view_values vw' = l' /\ v_changed vw' = true
+  | None => exists e, step Space o vw = (vw, Some e, None)
+  end.
+Proof.
+  intros Hinv Ho. destruct o; try discriminate; cbn [edit_op l_step step] in *.
+  - destruct (append_inv x vw Hinv Ho) as [vw' [H1 [H2 [H3 H4]]]]. exists vw'. rewrite H1. auto.
+  - pose proof (remove_inv x vw Hinv) as H. destruct (list_remove x (view_values vw)).
+    + destruct H as [vw' [H1 [H2 [H3 H4]]]]. exists vw'. rewrite H1. auto.
+    + destruct H as [e H]. exists e. now rewrite H.
+  - pose proof (replace_inv x y vw Hinv Ho) as H. destruct (list_replace x y (view_values vw)).
+    + destruct H as [vw' [H1 [H2 [H3 H4]]]]. exists vw'. rewrite H1. auto.
+    + destruct H as [e H]. exists e. now rewrite H.
+Qed.
+
+Lemma run_ops_edit os : forall vw, inv vw -> forallb edit_op os = true ->
+  map outcome_list (fst (run_ops Space os vw)) = fst (l_run os (view_values vw))
+  /\ inv (snd (run_ops Space os vw))
+  /\ view_values (snd (run_ops Space os vw)) = snd (l_run os (view_values vw))
+  /\ (v_changed (snd (run_ops Space os vw)) = true \/ snd (run_ops Space os vw) = vw).
+Proof.
+  induction os as [|o os IH]; intros vw Hinv Hos.
+  - cbn. splits; auto.
+  - cbn [forallb] in Hos. apply andb_true_iff in Hos. destruct Hos as [Ho Hos].
+    pose proof (step_edit o vw Hinv Ho) as Hs. cbn [run_ops l_run].
+    destruct (l_step o (view_values vw)) as [l'|].
+    + destruct Hs as [vw' [Hst [Hinv' [Hv' Hc']]]]. rewrite Hst.
+      destruct (IH vw' Hinv' Hos) as [I1 [I2 [I3 I4]]]. rewrite Hv' in *.
+      destruct (run_ops Space os vw') as [outs vf]. destruct (l_run os l') as [louts lf].
+      cbn [fst snd map outcome_list] in *. splits; auto.
+      * now rewrite I1.
+      * left. destruct I4 as [I4| ->]; assumption.
+    + destruct Hs as [e Hst]. rewrite Hst.
+      destruct (IH vw Hinv Hos) as [I1 [I2 [I3 I4]]].
+      destruct (run_ops Space os vw) as [outs vf]. destruct (l_run os (view_values vw)) as [louts lf].
+      cbn [fst snd map outcome_list] in *. splits; auto. now rewrite I1.
+Qed.
+
+(** view_edit_readback for whitespace-separated lists *)
+Theorem view_edit_readback_space name v os :
+  value_ok v = true -> closed_value v = true -> name_ok name = true ->
+  forallb edit_op os = true ->
+  let r := run_session Space name v os in
+  let l0 := split_spec false v in
+  sr_read r = Ok l0
+  /\ map outcome_list (sr_ops r) = fst (l_run os l0)
+  /\ (sr_close r = None ->
+      value_ok (sr_value r) = true
+      /\ (sr_value r = v \/ reparse name (sr_value r) = Ok (sr_value r))
+      /\ exists vw', interpret Space (sr_value r) = Ok vw' /\ view_values vw' = snd (l_run os l0))
+  /\ (forall e, sr_close r = Some e -> sr_value r = v).
+Proof.
+  intros Hv Hc Hname Hos r l0. subst r l0.
+  destruct (interpret_inv v Hv Hc) as [vw [Hi [Hinv [Hvals Hch]]]].
+  unfold run_session. rewrite Hi.
+  destruct (run_ops_edit os vw Hinv Hos) as [R1 [R2 [R3 R4]]]. rewrite Hvals in *.
+  destruct (run_ops Space os vw) as [outs vf]. cbn [fst snd] in *.
+  unfold close. destruct (v_changed vf) eqn:Ecf.
+  - destruct (update_field name vf) as [v'|e] eqn:Eu; cbn [sr_read sr_ops sr_close sr_value].
+    + splits; auto; try discriminate. intros _.
+      destruct (update_field_readback name vf v' R2 Hname Eu) as [U1 [U0 [vw' [U2 U3]]]].
+      split; [exact U1|]. split; [now right|]. exists vw'. split; [exact U2|]. now rewrite U3.
+    + splits; auto. discriminate.
+  - cbn [sr_read sr_ops sr_close sr_value]. splits; auto; try discriminate. intros _.
+    split; [exact Hv|]. split; [now left|]. destruct R4 as [R4| ->]; [congruence|].
+    exists vw. split; [exact Hi|]. now rewrite <- R3.
 Qed.
